@@ -116,6 +116,8 @@ class Wrapper(metaclass=abc.ABCMeta):
             ValueError: If the model outputs are strings.
         """
         try:
+            if isinstance(y_prediction, np.ndarray) and y_prediction.size == 1:
+                y_prediction = y_prediction.item()  # float() only accepts 0-dimensional arrays in newer NumPy versions
             return {self.default_label: float(y_prediction)}
         except TypeError:  # y_prediction is not a size-1 array or real_valued number
             y_prediction = y_prediction.flatten()
